@@ -295,7 +295,7 @@ def build():
          ensures=[
              Clause('L1_error_iff_over_limit', f'r is Err <==> (old(buf)@.len() - 5 > {lim} || old(buf)@.len() - 5 > u32::MAX)', ['C06', 'C03']),
              Clause('L2_error_codes', f'r matches Err(st) ==> final(buf)@ == old(buf)@ && (if old(buf)@.len() - 5 > {lim} {{ st.code == Code::OutOfRange }} else {{ st.code == Code::ResourceExhausted }})', ['C06']),
-             Clause('W1_header_layout', 'r is Ok ==> final(buf)@ =~= frame(flag_of(compression_encoding), old(buf)@.skip(5))', ['C01', 'C03']),
+             Clause('W1_header_layout', 'r is Ok ==> final(buf)@ =~= frame(flag_of(compression_encoding), old(buf)@.skip(5))', ['C01', 'C03', 'C02']),
          ])
 
     u.fn(E, 'encode_item',
@@ -311,7 +311,7 @@ def build():
                     '''match item_result::<T>(compression_encoding, max_message_size, item) {
                 Ok(f) => r is Ok && final(buf)@ =~= old(buf)@ + f,
                 Err(c) => r matches Err(st) && st.code == c,
-            }''', ['C01', 'C03', 'C06']),
+            }''', ['C01', 'C03', 'C06', 'C02']),   # callee of poll_next (C02)
              Clause('I2_earlier_bytes_never_disturbed', 'final(buf)@.len() >= old(buf)@.len() && final(buf)@.take(old(buf)@.len() as int) == old(buf)@ && final(buf).reserve_bound == old(buf).reserve_bound', ['C01', 'C06']),
          ])
 
